@@ -172,6 +172,7 @@ func RandShuffle(n int, swap func(i, j int)) {
 // own here). A timer that has not fired when the run ends is dropped.
 
 type Timer struct {
+	C        <-chan time.Time // NewTimer
 	real     *time.Timer
 	deadline time.Time
 	f        func()
@@ -279,4 +280,31 @@ func timersReset() {
 		timers[i] = nil
 	}
 	nTimers = 0
+}
+
+// NewTimer replaces time.NewTimer: under the simulator the channel is fed when
+// the simulated clock passes the deadline.
+func NewTimer(d time.Duration) *Timer {
+	if !simOn() {
+		t := time.NewTimer(d)
+		return &Timer{real: t, C: t.C}
+	}
+	ch := make(chan time.Time, 1)
+	t := &Timer{deadline: simNow().Add(d), active: true, C: ch}
+	t.f = func() {
+		select {
+		case ch <- t.deadline:
+		default:
+		}
+	}
+	addTimer(t)
+	return t
+}
+
+// After replaces time.After.
+func After(d time.Duration) <-chan time.Time {
+	if !simOn() {
+		return time.After(d)
+	}
+	return NewTimer(d).C
 }
